@@ -135,6 +135,25 @@ Theorem other_packets_do_not_disturb :
 Proof. exact @recv_frame_other_slots. Qed.
 Print Assumptions other_packets_do_not_disturb.
 
+(** "at most once" inside a slot epoch, on ANY schedule (reordering, duplication, omission) of
+    the frames of an honestly fragmented multi-frame packet: the slot's results contain at
+    most one emission.  (Across epochs: known finding C17-dup-reemit.) *)
+Theorem slot_epoch_emits_at_most_once :
+  forall (B : Type) (mtu so : N) (data : list B) frames nxt (sched : list nat)
+         (q : queue B) f0 d,
+    fragmenter_send mtu so data = Ok (frames, nxt) ->
+    (2 <= length frames)%nat ->
+    (forall j, In j sched -> (j < length frames)%nat) ->
+    length (q_buf q) = N.to_nat MAX_PACKET_SIZE -> h_so (f_hdr f0) = so ->
+    (length (filter is_emit
+       (feed (queue_init q f0) (map (fun j => nth j frames d) sched))) <= 1)%nat.
+Proof.
+  intros B mtu so data frames nxt sched q f0 d Hs Hn Hj Hb Hf.
+  rewrite (Live.slot_epoch_any_schedule mtu so data frames nxt sched q f0 d Hs Hn Hj Hb Hf).
+  apply spec_feed_emits_at_most_once.
+Qed.
+Print Assumptions slot_epoch_emits_at_most_once.
+
 (** non-vacuity: a three-frame packet delivered last-frame-first is emitted, intact *)
 Example reorder_emits :
   let d1 := repeat 1 256 in let d2 := repeat 2 256 in let d3 := repeat 3 10 in
